@@ -19,7 +19,7 @@ from typing import Dict, List, Optional, Set
 import sympy as sp
 
 from ..consteval import Folder, Raised, Rec, Undecidable
-from ..index import AnalysisError, FunctionInfo, Index, full, norm, own_nodes
+from ..index import AnalysisError, FunctionInfo, Index, full, norm, own_nodes, resolve_local
 from ..report import Report
 from ..rules import translators as tr
 from .. import symx
@@ -519,8 +519,9 @@ def check_forwarding(idx: Index, rep: Report):
     for c in calls:
         opts = None
         for k in c.keywords:
-            if k.arg == "output_options" and isinstance(k.value, ast.Dict):
-                opts = {kk.value: norm(v) for kk, v in zip(k.value.keys, k.value.values) if isinstance(kk, ast.Constant)}
+            kv = resolve_local(f.node, k.value) if k.arg == "output_options" else k.value
+            if k.arg == "output_options" and isinstance(kv, ast.Dict):
+                opts = {kk.value: norm(v) for kk, v in zip(kv.keys, kv.values) if isinstance(kk, ast.Constant)}
         has = opts is not None and opts.get("noise_model") == "self._noise_model"
         tests = _enclosing_tests(f, c)
         if has:
